@@ -33,9 +33,29 @@ number behind a leading 1) and a balanced search tree over the keys.
 import re, sys, os, glob, subprocess
 
 
+sys.path.insert(0, os.path.dirname(os.path.abspath(__file__)))
+from _exec import dump  # noqa: E402
+
+
 def die(msg):
     print(f"gen/zones.py: shape assertion failed: {msg}")
     sys.exit(1)
+
+
+class Soft(Exception):
+    """the source text of a modelled item no longer has the shape this translator knows"""
+
+
+def drift(msg):
+    """A body that is MODELLED BY HAND (its parameters, if any, are taken from the second source or from the pinned
+    expectation) changed its text.  Not a failure by itself: the model is tied to these functions by the differential
+    run, which `check` widens when it sees this line."""
+    print("DRIFT zones: " + " ".join(msg.split())[:500])
+
+
+# what the model was written against (used when the text can no longer be parsed; validated by the differential run)
+PINNED = {"colon_default": 3, "hour_start": 1, "utc_name": "UTC", "etc_prefix": "Etc/GMT",
+          "first_lo": "A", "first_hi": "Z", "extra": "_/+-", "bad_len": 1}
 
 
 def norm(s):
@@ -163,44 +183,71 @@ def main():
     capi = strip_comments(open(os.path.join(repo, "src/c_api/value.rs"), encoding="utf-8", newline="").read())
 
     # ---- find_timezone -------------------------------------------------------------------------------
-    ft = fn_text(iana, "find_timezone")
-    m = re.search(r"let prefixes = vec!\[(.*?)\];", ft, re.S)
-    if not m:
-        die("find_timezone: `let prefixes = vec![…]` not found")
-    items = [x.strip() for x in m.group(1).split(",") if x.strip()]
-    prefixes = []
-    for it in items:
-        mm = re.fullmatch(r'"([A-Za-z_]+)"', it)
-        if not mm:
-            die(f"find_timezone: prefix entry `{it}` is not a plain string literal")
-        prefixes.append(mm.group(1))
-    if len(prefixes) < 5 or len(set(prefixes)) != len(prefixes):
-        die(f"find_timezone: implausible prefix list {prefixes}")
-    skeleton = norm(ft.replace(m.group(0), "PREFIXES"))
-    expected = norm("""fn find_timezone(name: &str) -> Result<Tz, String> { match name.parse() { Ok(tz) => Ok(tz), Err(err) => {
-        PREFIXES if let Some(tz) = prefixes.into_iter().find_map(|prefix| -> Option<Tz> {
-        match format!("{prefix}/{name}").parse() { Ok(tz) => Some(tz), Err(_) => None, } }) { Ok(tz) } else { Err(err) } } } }""")
-    if skeleton != expected:
-        die(f"find_timezone does not have the modelled shape (exact parse, then `prefix/name` in order): `{skeleton}`")
+    prefixes = None
+    try:
+        ft = fn_text(iana, "find_timezone")
+        m = re.search(r"let prefixes = vec!\[(.*?)\];", ft, re.S)
+        if not m:
+            raise Soft("find_timezone: `let prefixes = vec![…]` not found")
+        items = [x.strip() for x in m.group(1).split(",") if x.strip()]
+        got = []
+        for it in items:
+            mm = re.fullmatch(r'"([A-Za-z_]+)"', it)
+            if not mm:
+                raise Soft(f"find_timezone: prefix entry `{it}` is not a plain string literal")
+            got.append(mm.group(1))
+        if len(got) < 5 or len(set(got)) != len(got):
+            raise Soft(f"find_timezone: implausible prefix list {got}")
+        skeleton = norm(ft.replace(m.group(0), "PREFIXES"))
+        expected = norm("""fn find_timezone(name: &str) -> Result<Tz, String> { match name.parse() { Ok(tz) => Ok(tz), Err(err) => {
+            PREFIXES if let Some(tz) = prefixes.into_iter().find_map(|prefix| -> Option<Tz> {
+            match format!("{prefix}/{name}").parse() { Ok(tz) => Some(tz), Err(_) => None, } }) { Ok(tz) } else { Err(err) } } } }""")
+        if skeleton != expected:
+            raise Soft(f"find_timezone does not have the modelled shape (exact parse, then `prefix/name` in order): `{skeleton}`")
+        prefixes = got
+    except (Soft, SystemExit) as e:
+        why = str(e) if isinstance(e, Soft) else "fn find_timezone not found"
+        d = dump("c06")
+        if d is None or d.get("cyclic") or d.get("mismatches") or len(d.get("prefixes", [])) < 5:
+            die(f"{why}; and the second source (`hsverif dump c06`) gives no prefix list that reproduces the function: {d}")
+        prefixes = d["prefixes"]
+        print(f"FALLBACK zones: {' '.join(why.split())[:300]}; the region prefix list was measured on the real function by `hsverif dump c06` "
+              f"(the list reproduces the resolution of all {d['names_checked']} zone ids and suffixes of zone ids)")
 
-    sn = norm(fn_text(iana, "timezone_short_name"))
+    def same_body(what, got, want):
+        if got != norm(want):
+            drift(f"{what} does not have the modelled text: `{got}`")
+
+    def block_of(src, header):
+        try:
+            return norm(block_text(src, header))
+        except SystemExit:
+            return f"(`{header}` not found)"
+
+    def text_of(src, name):
+        try:
+            return norm(fn_text(src, name))
+        except SystemExit:
+            return f"(fn {name} not found)"
+
+    sn = text_of(iana, "timezone_short_name")
     if sn != norm("""fn timezone_short_name(date: &DateTimeType) -> String { let tz_id = date.offset().tz_id();
         tz_id[tz_id.find('/').map_or(0, |v| v + 1)..].to_string() }"""):
-        die(f"timezone_short_name does not have the modelled shape: `{sn}`")
-    iu = norm(fn_text(iana, "is_utc"))
+        drift(f"timezone_short_name does not have the modelled shape: `{sn}`")
+    iu = text_of(iana, "is_utc")
     if iu != norm("fn is_utc(date: &DateTimeType) -> bool { date.timezone() == UTC }"):
-        die(f"is_utc does not have the modelled shape: `{iu}`")
-    md = norm(fn_text(iana, "make_date_time"))
+        drift(f"is_utc does not have the modelled shape: `{iu}`")
+    md = text_of(iana, "make_date_time")
     if md != norm("""fn make_date_time(date: StdDateTime<FixedOffset>) -> Result<DateTimeType, String> {
         if let Ok(tz) = find_timezone(&fixed_timezone(&date.offset().to_string())) { Ok(date.with_timezone(&tz)) }
         else { Err("Invalid timezone".into()) } }"""):
-        die(f"make_date_time does not have the modelled shape (zone from the offset text, instant kept by with_timezone): `{md}`")
-    mt = norm(fn_text(iana, "make_date_time_with_tz"))
+        drift(f"make_date_time does not have the modelled shape (zone from the offset text, instant kept by with_timezone): `{md}`")
+    mt = text_of(iana, "make_date_time_with_tz")
     if mt != norm("""fn make_date_time_with_tz( datetime: &StdDateTime<FixedOffset>, tz: &str, ) -> Result<DateTimeType, String> {
         if let Ok(tz) = find_timezone(tz) { Ok(datetime.with_timezone(&tz)) }
         else { Err(format!("Can't create datetime with timezone {tz}")) } }"""):
-        die(f"make_date_time_with_tz does not have the modelled shape: `{mt}`")
-    mf = norm(fn_text(iana, "make_date_time_from_text"))
+        drift(f"make_date_time_with_tz does not have the modelled shape: `{mt}`")
+    mf = text_of(iana, "make_date_time_from_text")
     if mf != norm("""fn make_date_time_from_text( datetime: &StdDateTime<FixedOffset>, tz: &str, ) -> Result<DateTimeType, String> {
         use chrono::Offset;
         let converted = make_date_time_with_tz(datetime, tz)?;
@@ -212,11 +259,11 @@ def main():
             if exact.offset().fix().local_minus_utc() == zone_secs { return Ok(exact); }
         }
         Ok(converted) }"""):
-        die("make_date_time_from_text does not have the modelled shape (convert; rounded = signum * ((abs + 30) / 60) * 60; "
+        drift("make_date_time_from_text does not have the modelled shape (convert; rounded = signum * ((abs + 30) / 60) * 60; "
             f"seconds != 0 && rounded == written offset; converted - seconds; offset re-checked): `{mf}`")
 
     # ---- fixed_timezone ------------------------------------------------------------------------------
-    fz = norm(fn_text(modrs, "fixed_timezone"))
+    fz = text_of(modrs, "fixed_timezone")
     mfz = re.fullmatch(
         r"fn fixed_timezone\(offset: &str\) -> String \{ "
         r"let colon = offset\.find\(':'\)\.unwrap_or\((\d+)\); "
@@ -225,11 +272,13 @@ def main():
         r"let gmt_sign = offset\[0\.\.1\]\.to_string\(\); "
         r"format!\( \"([A-Za-z/]+)\{sign\}\{gmt_offset\}\", sign = if gmt_sign == \"-\" \{ \"\+\" \} else \{ \"-\" \} \) \}", fz)
     if not mfz:
-        die(f"fixed_timezone does not have the modelled shape (all hour digits, minutes must be zero): `{fz}`")
-    colon_default, hour_start, utc_name, etc_prefix = int(mfz.group(1)), int(mfz.group(2)), mfz.group(3), mfz.group(4)
+        drift(f"fixed_timezone does not have the modelled shape (all hour digits, minutes must be zero): `{fz}`; its four constants are the pinned ones")
+        colon_default, hour_start, utc_name, etc_prefix = PINNED["colon_default"], PINNED["hour_start"], PINNED["utc_name"], PINNED["etc_prefix"]
+    else:
+        colon_default, hour_start, utc_name, etc_prefix = int(mfz.group(1)), int(mfz.group(2)), mfz.group(3), mfz.group(4)
 
     # ---- zinc zone-name lexing -----------------------------------------------------------------------
-    pn = norm(fn_text(zdt, "parse_time_zone_name"))
+    pn = text_of(zdt, "parse_time_zone_name")
     mpn = re.fullmatch(
         r"fn parse_time_zone_name<R: Read>\(scanner: &mut Scanner<R>\) -> Result<String, Error> \{ "
         r"let mut name = vec!\[scanner\.expect_and_consume_any_in_range\(&\(b'(.)'\.\.=b'(.)'\)\)\?\]; "
@@ -237,11 +286,13 @@ def main():
         r"let name = String::from_utf8_lossy\(&name\)\.to_string\(\); "
         r"if name\.len\(\) == (\d+) \{ scanner\.make_generic_err\(&format!\(\"Invalid timezone name '\{name\}'\.\"\)\) \} else \{ Ok\(name\) \} \}", pn)
     if not mpn:
-        die(f"parse_time_zone_name does not have the modelled shape: `{pn}`")
-    first_lo, first_hi, extra, bad_len = mpn.group(1), mpn.group(2), mpn.group(3), int(mpn.group(4))
-    ptz = norm(fn_text(zdt, "parse_datetime"))
+        drift(f"parse_time_zone_name does not have the modelled shape: `{pn}`; its lexing class is the pinned one")
+        first_lo, first_hi, extra, bad_len = PINNED["first_lo"], PINNED["first_hi"], PINNED["extra"], PINNED["bad_len"]
+    else:
+        first_lo, first_hi, extra, bad_len = mpn.group(1), mpn.group(2), mpn.group(3), int(mpn.group(4))
+    ptz = text_of(zdt, "parse_datetime")
     if 'if tz == "UTC" { Ok(utc.into()) }' not in ptz:
-        die("parse_datetime: the `tz == \"UTC\"` shortcut is not there")
+        drift("parse_datetime: the `tz == \"UTC\"` shortcut is not there")
     ptz_tail = ptz[ptz.find("let (tz, fixed_offset)"):] if "let (tz, fixed_offset)" in ptz else ""
     if ptz_tail != norm("""let (tz, fixed_offset) = parse_time_zone(scanner)?;
         let datetime = date.and_time(*time.deref());
@@ -253,17 +304,17 @@ def main():
                     .single() .and_then(|dt| dt.with_nanosecond(time.nanosecond())) .ok_or_else(|| String::from("Invalid date time."))
                     .and_then(|fixed| make_date_time_from_text(&fixed, &tz)) }, )
             .map(DateTime::from) .or_else(|err| scanner.make_generic_err(&err)) } }"""):
-        die("parse_datetime: the paths after `parse_time_zone` are not as modelled (`Z Name`: make_date_time_with_tz on the "
+        drift("parse_datetime: the paths after `parse_time_zone` are not as modelled (`Z Name`: make_date_time_with_tz on the "
             f"fields as UTC; `+hh:mm Name`: make_date_time_from_text on the fields at that offset): `{ptz_tail}`")
-    ptzz = norm(fn_text(zdt, "parse_time_zone"))
+    ptzz = text_of(zdt, "parse_time_zone")
     for frag in ["Duration::hours(gmt_offset[1..3].parse::<i64>().unwrap_or(0))", "Duration::minutes(gmt_offset[4..6].parse::<i64>().unwrap_or(0))",
                  'if gmt_sign == "+" { FixedOffset::east_opt(dur.num_seconds() as i32) } else { FixedOffset::west_opt(dur.num_seconds() as i32) }',
                  'Ok(("UTC".into(), None))']:
         if frag not in ptzz:
-            die(f"parse_time_zone: `{frag}` not found")
+            drift(f"parse_time_zone: `{frag}` not found")
 
     # ---- the other call sites ------------------------------------------------------------------------
-    jp = norm(fn_text(jdec, "parse_datetime"))
+    jp = text_of(jdec, "parse_datetime")
     if jp != norm("""fn parse_datetime(dict: &Dict) -> Result<HVal, JsonErr> { match dict.get_str("val") {
         Some(val) => match DateTime::parse_from_rfc3339(&val.value) {
             Ok(date) => match dict.get_str("tz") {
@@ -274,33 +325,33 @@ def main():
                 None => Ok(HVal::make_datetime(date)), },
             Err(err) => Err(JsonErr::custom(format!("Invalid datetime 'val', {err}"))), },
         None => Err(JsonErr::custom("Missing or invalid 'val'")), } }"""):
-        die(f"json parse_datetime does not have the modelled shape (parse_from_rfc3339(val), then make_date_time_from_text of the re-parsed val when there is a tz): `{jp}`")
-    vp = norm(fn_text(vdt, "parse_from_rfc3339"))
+        drift(f"json parse_datetime does not have the modelled shape (parse_from_rfc3339(val), then make_date_time_from_text of the re-parsed val when there is a tz): `{jp}`")
+    vp = text_of(vdt, "parse_from_rfc3339")
     if vp != norm("""fn parse_from_rfc3339(arg: &str) -> Result<DateTime, String> { match DateTimeImpl::<FixedOffset>::parse_from_rfc3339(arg) {
         Ok(value) => Ok(DateTime { value: make_date_time(value)?, }), Err(err) => Err(format!("Can't parse date time {err}")), } }"""):
-        die(f"DateTime::parse_from_rfc3339 does not have the modelled shape: `{vp}`")
-    vw = norm(fn_text(vdt, "parse_from_rfc3339_with_timezone"))
+        drift(f"DateTime::parse_from_rfc3339 does not have the modelled shape: `{vp}`")
+    vw = text_of(vdt, "parse_from_rfc3339_with_timezone")
     if vw != norm("""fn parse_from_rfc3339_with_timezone(datetime: &str, tz: &str) -> Result<DateTime, String> {
         match DateTimeImpl::<FixedOffset>::parse_from_rfc3339(datetime) {
         Ok(value) => Ok(DateTime { value: make_date_time_from_text(&value, tz)?, }), Err(err) => Err(format!("Can't parse date time {err}")), } }"""):
-        die(f"DateTime::parse_from_rfc3339_with_timezone does not have the modelled shape (make_date_time_from_text): `{vw}`")
-    cm = norm(fn_text(capi, "haystack_value_make_tz_datetime"))
+        drift(f"DateTime::parse_from_rfc3339_with_timezone does not have the modelled shape (make_date_time_from_text): `{vw}`")
+    cm = text_of(capi, "haystack_value_make_tz_datetime")
     if "match make_date_time_with_tz(&datetime.with_timezone(&Utc.fix()), tz) {" not in cm or "make_date_time_from_text" in cm:
-        die("haystack_value_make_tz_datetime: `make_date_time_with_tz(&datetime.with_timezone(&Utc.fix()), tz)` is not there")
-    ze = norm(block_text(zenc, "impl ToZinc for DateTime {"))
+        drift("haystack_value_make_tz_datetime: `make_date_time_with_tz(&datetime.with_timezone(&Utc.fix()), tz)` is not there")
+    ze = block_of(zenc, "impl ToZinc for DateTime {")
     if ze != norm("""impl ToZinc for DateTime { fn to_zinc<W: std::io::Write>(&self, writer: &mut W) -> Result<()> {
         if self.is_utc() { write_str(writer, &self.to_rfc3339_opts(SecondsFormat::AutoSi, true))?; }
         else { writer.write_fmt(format_args!( "{} {}", &self.to_rfc3339_opts(SecondsFormat::AutoSi, true), &self.timezone_short_name() ))? }
         Ok(()) } }"""):
-        die(f"impl ToZinc for DateTime does not have the modelled shape: `{ze}`")
-    je = norm(block_text(jenc, "impl Serialize for DateTime {"))
+        drift(f"impl ToZinc for DateTime does not have the modelled shape: `{ze}`")
+    je = block_of(jenc, "impl Serialize for DateTime {")
     if je != norm("""impl Serialize for DateTime { fn serialize<S: Serializer>(&self, serializer: S) -> Result<S::Ok, S::Error> {
         let mut map = serializer.serialize_map(Some(2))?;
         map.serialize_entry("_kind", "dateTime")?;
         map.serialize_entry("val", &self.to_rfc3339_opts(SecondsFormat::AutoSi, true))?;
         if !self.is_utc() { map.serialize_entry("tz", &self.timezone_short_name())?; }
         map.end() } }"""):
-        die(f"impl Serialize for DateTime does not have the modelled shape: `{je}`")
+        drift(f"impl Serialize for DateTime does not have the modelled shape: `{je}`")
 
     # ---- zones ---------------------------------------------------------------------------------------
     ids, source = zone_ids()
